@@ -14,6 +14,7 @@ mod literals;
 mod reconfig;
 mod reloader;
 mod rolling;
+mod rolltrace;
 mod timetrig;
 mod routing;
 mod util;
@@ -29,6 +30,7 @@ fn main() {
         "routing" => routing::main(rest),
         "cfgbuild" => cfgbuild::main(rest),
         "fanout" => fanout::main(rest),
+        "rolltrace" => rolltrace::main(rest),
         "configfile" => configfile::main(rest),
         "timetrig" => timetrig::main(rest),
         "console" => console::main(rest),
